@@ -205,6 +205,8 @@ type Engine struct {
 	Nudge    bool
 	Baseline map[wamp.URI]router.VerifSizes // H1 snapshot right after start
 	AuthSeen map[string][]string            // authid|method -> correct responses computed so far (for replays)
+	CloseDone  chan struct{}                // closed when a router_close op's Router.Close() has returned
+	RemoveDone []chan struct{}              // one per remove_realm op
 }
 
 func NewEngine(c *Case) *Engine {
@@ -610,12 +612,15 @@ func (e *Engine) execOp(idx int, op *Op, st *StepRec) {
 	case "router_close":
 		if !e.RouterClosed {
 			e.RouterClosed = true
-			go e.R.Close()
+			e.CloseDone = make(chan struct{})
+			go func() { e.R.Close(); close(e.CloseDone) }()
 		}
 		return
 	case "remove_realm":
 		uri := wamp.URI(op.URI)
-		go e.R.RemoveRealm(uri)
+		done := make(chan struct{})
+		e.RemoveDone = append(e.RemoveDone, done)
+		go func() { e.R.RemoveRealm(uri); close(done) }()
 		return
 	case "add_realm":
 		for i := range e.C.Realms {
@@ -819,7 +824,9 @@ func (e *Engine) Run(o Oracle) *Violation {
 	st = e.newStep("close")
 	if !e.RouterClosed {
 		e.RouterClosed = true
+		e.CloseDone = make(chan struct{})
 		e.R.Close()
+		close(e.CloseDone)
 	}
 	time.Sleep(24 * time.Hour)
 	e.settle(st)
